@@ -218,6 +218,7 @@ Lemma run_loop_stale_some k : m_coherent st = false ->
     cache_ok (Some k) c ->
     (forall l, In l c <-> isld labels loaded l = true) ->
     count = Z.of_nat (length c) -> NoDup la -> filter (isld labels loaded) la = c ->
+    (forall l, In l la -> isld labels loaded l = true) ->
     Forall (fun t => In (fst t) labels /\ snd t = slot_of labels array (fst t)) ts ->
     (deferred_of L F ts <> [] -> pending <> []) ->
     exists la',
@@ -225,11 +226,12 @@ Lemma run_loop_stale_some k : m_coherent st = false ->
         (stale_result (Some k) c ts, mk_loopst L F array loaded la' count pending) /\
       let c' := snd (s_access_all false (Some k) c (map fst ts)) in
       cache_ok (Some k) c' /\ (forall l, In l c' <-> isld labels loaded l = true) /\
-      NoDup la' /\ filter (isld labels loaded) la' = c'.
+      NoDup la' /\ filter (isld labels loaded) la' = c' /\
+      (forall l, In l la' -> isld labels loaded l = true).
 Proof.
   intros Stale array loaded count pending Eld. subst loaded. unfold stale_result.
-  induction ts as [|[l snap] r IH]; intros la c Ck Hc Ecount N Fl Hts Hp; cbn [Bus.run_loop map fst BusSpec.s_access_all].
-  - exists la. cbn. auto.
+  induction ts as [|[l snap] r IH]; intros la c Ck Hc Ecount N Fl Hph Hts Hp; cbn [Bus.run_loop map fst BusSpec.s_access_all].
+  - exists la. cbn. auto 10.
   - apply Forall_cons_iff in Hts as [[Il Esnap] Hr]. cbn [fst snd] in Il, Esnap. subst snap.
     destruct (find_idx_In L leqb leqb_spec l labels Il) as [idx Fi].
     assert (Eisld : isld labels (map is_some array) l = nth idx (map is_some array) false)
@@ -251,6 +253,7 @@ Proof.
       * rewrite (la_touch_length_in L leqb leqb_spec l c Nc Ic). exact Ecount.
       * apply (la_touch_NoDup L leqb leqb_spec), N.
       * rewrite (filter_la_touch_true L leqb leqb_spec _ l la Ild), Fl. reflexivity.
+      * intros x Hx. apply (la_touch_In L leqb leqb_spec) in Hx as [->|Hx]; [exact Ild | apply Hph, Hx].
       * exact Hr.
       * intro D. apply Hp. cbn. exact D.
       * exists la'. split; [exact E | exact Hres].
@@ -259,14 +262,9 @@ Proof.
       assert (Ic : ~ In l c) by (intro I; apply Hc in I; congruence).
       rewrite (proj2 (mem_false L leqb leqb_spec l c) Ic). cbn [orb fst snd].
       destruct pending as [|[l' mode] rest]; [exfalso; apply Hp; [cbn; discriminate | reflexivity]|].
-      rewrite Stale.
-      destruct lru_update_after_read.
-      * (* the LRU position is only updated after a successful read: nothing changed *)
-        exists la. split; [reflexivity|]. split; [exact Ck|]. split; [exact Hc|]. split; [exact N | exact Fl].
-      * (* as found: the label is already in the dict when next(store_reader) raises *)
-        exists (la_touch l la). split; [reflexivity|].
-        split; [exact Ck|]. split; [exact Hc|]. split; [apply (la_touch_NoDup L leqb leqb_spec), N|].
-        rewrite (filter_la_touch_false L leqb leqb_spec _ l la Ild). exact Fl.
+      rewrite Stale, lru_after_read.
+      (* the LRU position is only updated after a successful read (repaired, commit dee625c): the dict is untouched *)
+      exists la. split; [reflexivity|]. split; [exact Ck|]. split; [exact Hc|]. split; [exact N|]. split; [exact Fl | exact Hph].
 Qed.
 
 Lemma run_loop_stale_none : m_coherent st = false ->
